@@ -75,6 +75,10 @@ func (ds *DirStructure) EnsureAbsPath(dirPath string) error {
 		return ds.Parent.EnsureAbsPath(dirPath)
 	}
 
+	// Clean the path, so that the scope check below cannot be bypassed with
+	// parent references (eg. "<root>/a/../../b").
+	dirPath = filepath.Clean(dirPath)
+
 	// check if root
 	if dirPath == ds.Path {
 		return ds.ensure(nil)
